@@ -24,6 +24,15 @@ type_args = ("(" + pp.original_text_for(expression) + ")")
 # column type is parsed as a single string, it will be split by blueprint
 column_type = pp.Combine((name + pp.Literal('[]')) | (name + '.' + name) | ((name) + type_args[0, 1]))
 
+
+def parse_number_literal(s, loc, tok):
+    try:
+        return float(''.join(tok[0])) if '.' in tok[0] else int(tok[0])
+    except ValueError as e:
+        # e.g. more digits than the interpreter converts (sys.get_int_max_str_digits())
+        raise pp.ParseFatalException(s, loc, f'Invalid number literal: {e}')
+
+
 default = pp.CaselessLiteral('default:').suppress() + _ - (
     string_literal
     | expression_literal
@@ -34,9 +43,7 @@ default = pp.CaselessLiteral('default:').suppress() + _ - (
             'NULL': None
         }[tok[0]]
     )
-    | number_literal.set_parse_action(
-        lambda s, loc, tok: float(''.join(tok[0])) if '.' in tok[0] else int(tok[0])
-    )
+    | number_literal.set_parse_action(parse_number_literal)
 )
 
 prop = name + pp.Suppress(":") + string_literal
